@@ -30,24 +30,31 @@ echo "own tests (all features): $T2"
 echo "demo with change: $D_WITH"
 echo "demo without change: $D_WITHOUT"
 cp SEED/patch.diff "$OUT/patch.diff"; cp tests/seed_demo.rs "$OUT/seed_demo.rs"; cp SEED/meta.md "$OUT/agent_meta.md" 2>/dev/null
-# run my checks against it
-cd /verif
-[ -z "$(git -C /repo status --porcelain)" ] || { echo "/repo is dirty, refusing"; exit 2; }
-git -C /repo apply "$OUT/patch.diff" || { echo "patch does not apply to /repo"; exit 2; }
+# run my checks against it: scratch copy of the harness whose path dependency is the agent's
+# worktree (patch applied), so /repo is not touched; tools/seeded_all.sh later re-confirms every
+# kept change the sanctioned way (git -C /repo apply ...; run; git -C /repo checkout -- .)
+SH="/tmp/seedh_$ID"
+rm -rf "$SH"; mkdir -p "$SH"
+rsync -a --exclude target --exclude target-nounicode /verif/harness/ "$SH/harness/"
+sed -i "s#path = \"/repo\"#path = \"$WT\"#" "$SH/harness/Cargo.toml"
+cp /verif/known_findings.json "$SH/"
 RES=""
+cd "$SH/harness"
+if ! CARGO_NET_OFFLINE=true RUSTFLAGS="--cfg similar_verif" cargo build --release --offline > "$SH/build.log" 2>&1; then
+  echo "harness does not build against the seeded tree"; tail -20 "$SH/build.log"; exit 2
+fi
 for C in $CHECKS; do
   S=$(date +%s)
-  ./run.sh "$C" quick > /tmp/seedrun_$ID.log 2>&1; RC=$?
+  VERIF_DIR="$SH" ./target/release/vcheck "$C" quick > "$SH/run.log" 2>&1; RC=$?
   E=$(date +%s)
-  COMPLAINT=$(grep "^complaint:" /tmp/seedrun_$ID.log | head -1 | cut -c1-400)
+  COMPLAINT=$(grep "^complaint:" "$SH/run.log" | head -1 | cut -c1-400)
   echo "check $C: exit=$RC ($((E-S))s) $COMPLAINT"
-  RP=$(grep "^VIOLATION" /tmp/seedrun_$ID.log | sed 's/.*replay=//')
-  if [ -n "$RP" ]; then ./run.sh "$C" --replay "$RP" > /tmp/seedreplay_$ID.log 2>&1; echo "  replay exit=$?"; fi
+  RP=$(grep "^VIOLATION" "$SH/run.log" | sed 's/.*replay=//')
+  if [ -n "$RP" ]; then VERIF_DIR="$SH" ./target/release/vcheck "$C" --replay "$RP" > "$SH/replay.log" 2>&1; echo "  replay exit=$?"; fi
   RES="$RES$C:exit=$RC;"
 done
-git -C /repo checkout -- . ; git -C /repo status --porcelain
-# evidence files were rewritten by runs on a mutated tree: restore the committed ones
-git -C /verif checkout -- evidence 2>/dev/null
+cd /verif
+rm -rf "$SH"
 python3 - "$ID" "$T1" "$T2" "$D_WITH" "$D_WITHOUT" "$RES" <<'PY'
 import json,sys,os
 id,t1,t2,dw,dwo,res=sys.argv[1:7]
@@ -60,4 +67,3 @@ old.update({"property":id,"own_tests_default_with_change":t1.strip(),"own_tests_
              "git -C /repo apply seeded/%s/patch.diff; ./run.sh <check> quick; git -C /repo checkout -- ."%id]})
 json.dump(old,open(out,"w"),indent=1)
 PY
-rm -f /tmp/seedrun_$ID.log /tmp/seedreplay_$ID.log
